@@ -15,5 +15,5 @@ def run(ctx):
     ctx.rule = ("TLC-enumerated names/pairs (Gen_C02) plus %d seeded random names with 6..30 accidentals; distinct = "
                 "distinct (operation, arguments); non-trivial = some argument carries an accidental" % n_rand)
     ctx.nontrivial = lambda r: any(len(v) > 1 for v in r["in"].values() if isinstance(v, list))
-    recs = ctx.execute("c02", cases)
+    recs = ctx.execute("c02", cases, orders=2)
     ctx.validate("Trace_C02", recs, driver="c02")
